@@ -1,4 +1,15 @@
-(* placeholder so that the pipeline can be exercised; replaced by the real theorems *)
-From SV Require Import Names Rep.
-Theorem C07_placeholder : True. Proof. exact I. Qed.
-Print Assumptions C07_placeholder.
+(* C07 -- Smith normal forms and cycle bases.  Theorem statements only. *)
+From Coq Require Import ZArith List.
+From mathcomp Require Import all_ssreflect all_algebra.
+From SV Require Import Names Rep Complex Homology ListMat SnfCount Rank Betti.
+
+(* smithNormalForm(k) has the shape of the order-k boundary operator, ones on a leading stretch of
+   the diagonal whose length is that operator's GF(2) rank, zeros elsewhere -- for every
+   representation and every order (0 and above the maximum included) *)
+Theorem C07_snf_shape :
+  forall (r : rep) (k : nat),
+  let B := boundaryOperator r k in
+  let '(nr, nc, D) := smithNormalForm r k in
+  nr = nrows B /\ nc = ncols B /\ pidform nr nc (rk B) D.
+Proof. exact snf_pidform. Qed.
+Print Assumptions C07_snf_shape.
